@@ -122,8 +122,14 @@ fn process_message(receiver: &mut Receiver<String>, writer: &mut BufWriter<&TcpS
     match receiver.try_next() {
         Ok(message_opt) => match message_opt {
             Some(message) => {
-                writer.write_fmt(format_args!("{}", message)).unwrap();
-                match writer.flush() {
+                // The socket is non blocking because of the reads, a message bigger than what the
+                // client is reading has to wait, not to fail (and never to kill this thread)
+                let _ = writer.get_ref().set_nonblocking(false);
+                let result = writer
+                    .write_fmt(format_args!("{}", message))
+                    .and_then(|_| writer.flush());
+                let _ = writer.get_ref().set_nonblocking(true);
+                match result {
                     Ok(_n) => (),
                     Err(e) => log::warn!("process_message Error: {}", e),
                 }
